@@ -165,3 +165,112 @@ def count_refs(a):
     if t == 'l':
         return sum(count_refs(x) for x in a[1])
     return 0
+
+
+# ---------------------------------------------------------------- acyclic-by-rank reference graphs
+def ranked_root(rng, n=None, chain=None, cyc=False):
+    """Root mapping with keys r0..r(n-1): r_i may reference only r_j with j < i (so the
+    reference graph is acyclic by construction) unless cyc, in which case one back edge is
+    inserted.  Returns (layers, info) where info[k] = list of (kind, target path) of the
+    references key k holds."""
+    n = n or rng.randint(2, 8)
+    keys = ['r%d' % i for i in range(n)]
+    entries = []
+    info = {}
+    sub = {}     # key -> sub-paths available (for map targets)
+    layers2 = []
+
+    def target_path(j):
+        k = keys[j]
+        if sub.get(k) and rng.random() < 0.4:
+            return k + ':' + rng.choice(sub[k])
+        return k
+    for i, k in enumerate(keys):
+        refs = []
+        if i == 0 or rng.random() < 0.25:
+            # a base value
+            r = rng.random()
+            if r < 0.35:
+                v = ('m', [(S('x'), scalar(rng)), (S('y'), ('l', [scalar(rng)])), (S('z'), ('m', [(S('w'), scalar(rng))]))])
+                sub[k] = ['x', 'y', 'z', 'z:w']
+            elif r < 0.5:
+                v = ('l', [scalar(rng), scalar(rng)])
+            else:
+                v = scalar(rng)
+        else:
+            if chain:
+                j = i - 1
+            else:
+                j = rng.randint(0, i - 1)
+            tp = target_path(j)
+            r = rng.random()
+            if r < 0.35:
+                v = S('${%s}' % tp)
+                refs.append(('whole', tp))
+                if keys[j] in sub and tp == keys[j]:
+                    sub[k] = sub[keys[j]]
+            elif r < 0.5:
+                v = S('pre-${%s}-post' % tp)
+                refs.append(('embedded', tp))
+            elif r < 0.6:
+                j2 = rng.randint(0, i - 1)
+                v = ('l', [S('${%s}' % tp), S('${%s}' % keys[j2]), S('${%s}' % tp)])
+                refs.append(('list', tp))
+            elif r < 0.7:
+                v = ('m', [(S('x'), S('${%s}' % tp)), (S('y'), S('${%s}' % tp))])
+                sub[k] = ['x', 'y']
+                refs.append(('mapval', tp))
+            elif r < 0.85:
+                # layer: this key defined twice, second definition is a reference or a map
+                v = S('${%s}' % tp)
+                layers2.append((S(k), rng.choice([S('${%s}' % keys[rng.randint(0, i - 1)]), M(('q', I(1))), L(I(5)), N])))
+                refs.append(('layer', tp))
+            else:
+                # nested path: ${rj:${name}} where name key holds a segment
+                kk = keys[j]
+                if sub.get(kk):
+                    seg = rng.choice([s for s in sub[kk] if ':' not in s])
+                    entries.append((S('seg_%s' % k), S(seg)))
+                    v = S('${%s:${seg_%s}}' % (kk, k))
+                    refs.append(('nested', kk + ':' + seg))
+                else:
+                    v = S('${%s}' % tp)
+                    refs.append(('whole', tp))
+        info[k] = refs
+        entries.append((S(k), v))
+    if cyc:
+        # back edge from an early key to a late one through a random placement
+        i = rng.randint(0, n - 2)
+        j = rng.randint(i + 1, n - 1) if rng.random() < 0.8 else i
+        place = rng.choice(['whole', 'embedded', 'list', 'mapval', 'layer'])
+        ref = '${%s}' % keys[j]
+        k = keys[i]
+        if place == 'whole':
+            nv = S(ref)
+        elif place == 'embedded':
+            nv = S('a' + ref)
+        elif place == 'list':
+            nv = ('l', [I(1), S(ref)])
+        elif place == 'mapval':
+            nv = ('m', [(S('x'), S(ref))])
+        else:
+            nv = None
+            layers2.append((S(k), S(ref)))
+        if nv is not None:
+            entries = [(kk, (nv if kk == S(k) else vv)) for kk, vv in entries]
+        # make sure the late key really reaches the early one
+        entries = [(kk, (S('${%s}' % k) if kk == S(keys[j]) and j != i else vv)) for kk, vv in entries]
+        info['__cycle__'] = (k, keys[j], place)
+    rng.shuffle(entries)
+    layers = [('m', entries)]
+    while layers2:
+        cur, rest, seen = [], [], set()
+        for kk, vv in layers2:
+            if kk in seen:
+                rest.append((kk, vv))
+            else:
+                seen.add(kk)
+                cur.append((kk, vv))
+        layers.append(('m', cur))
+        layers2 = rest
+    return layers, info
